@@ -287,3 +287,33 @@ Definition replay_complete (tbl : list (key * N)) (mt : list (N * N)) (qss : lis
               && list_eqb (list_eqb Bool.eqb) (answers s)
                           (map (map (fresh_answer (compile_of tbl) (match_of mt))) qss)
   end.
+
+(* the cache after a single thread ran [qs] on it *)
+Definition seq_cache (b : cache -> rq -> res (cache * bool)) (c : cache) (qs : list rq) : cache :=
+  match seq_run b c qs with Ok (c', _) => c' | Panic _ => c end.
+
+(* same keys, same compiled/discarded status as a dump [(key, compiled?)] of the implementation *)
+Definition cache_equiv (c : cache) (d : list (key * bool)) : bool :=
+  forallb (fun p => match lookup c (fst p) with
+                    | Some (Compiled _) => snd p
+                    | Some Discarded => negb (snd p)
+                    | None => false
+                    end) d
+  && forallb (fun e => existsb (fun p => N.eqb (fst p) (fst e)) d) c.
+
+(* a small run replayed to its end: complete, fresh answers for everybody, equal to what the
+   implementation's threads received, and — after the post phase (one cleanup-only critical
+   section = the policy switch, then [post] without cleanup) — the model's cache is the
+   implementation's dumped cache, entry by entry *)
+Definition replay_final (tbl : list (key * N)) (mt : list (N * N)) (qss : list (list rq))
+           (sched : list nat) (impl : list (list bool)) (post : list rq) (dump : list (key * bool)) : bool :=
+  let b := rm_body (compile_of tbl) (match_of mt) in
+  match run b (init [] qss) sched with
+  | None => false
+  | Some s =>
+      complete s
+      && list_eqb (list_eqb Bool.eqb) (answers s) impl
+      && list_eqb (list_eqb Bool.eqb) (answers s) (map (map (fresh_answer (compile_of tbl) (match_of mt))) qss)
+      && run_all b (fun s => wfb s && negb (s_poisoned s) && cache_okb tbl (s_cache s)) (init [] qss) sched
+      && cache_equiv (seq_cache b (s_cache s) (mkQ QNetwork 0 [] true :: post)) dump
+  end.
